@@ -99,9 +99,27 @@ def run_workers(pid, tier, seed, jobs, timeout):
             cmd = [sys.executable, "-B", "-m", "rv.worker", pid, tier,
                    str(seed), str(k), str(jobs), out]
             logf = open(os.path.join(scratch, "log_%d.txt" % k), "w")
+            env = dict(os.environ, RV_PYMODE="")
             procs.append((k, out, logf,
                           subprocess.Popen(cmd, stdout=logf, stderr=subprocess.STDOUT,
-                                           cwd=HERE)))
+                                           cwd=HERE, env=env)))
+        # the same cases (every STRIDE-th) in other modes of the interpreter: assertions and
+        # __debug__ blocks compiled away (python -O); warnings attributed to lena modules
+        # turned into errors
+        modes = [m for m in os.environ.get("VERIF_PYMODES", "O,W").split(",") if m]
+        kmode = 2 if tier == "quick" else 4
+        for mode in modes:
+            for k in range(kmode):
+                name = "%s%d" % (mode, k)
+                out = os.path.join(scratch, "out_%s.json" % name)
+                cmd = [sys.executable, "-B"] + (["-O"] if mode == "O" else []) + \
+                    ["-m", "rv.worker", pid, tier, str(seed), str(k), str(kmode), out]
+                logf = open(os.path.join(scratch, "log_%s.txt" % name), "w")
+                env = dict(os.environ, RV_PYMODE=mode,
+                           RV_MODE_STRIDE="4" if tier == "quick" else "2")
+                procs.append((name, out, logf,
+                              subprocess.Popen(cmd, stdout=logf, stderr=subprocess.STDOUT,
+                                               cwd=HERE, env=env)))
         results = []
         problems = []
         deadline = time.time() + timeout
@@ -112,14 +130,14 @@ def run_workers(pid, tier, seed, jobs, timeout):
             except subprocess.TimeoutExpired:
                 p.kill()
                 p.wait()
-                problems.append("worker %d: wall-clock watchdog fired" % k)
+                problems.append("worker %s: wall-clock watchdog fired" % k)
                 continue
             finally:
                 logf.close()
             if rc != 0 or not os.path.exists(out):
                 with open(logf.name) as f:
                     tail = f.read()[-3000:]
-                problems.append("worker %d exited %s\n%s" % (k, rc, tail))
+                problems.append("worker %s exited %s\n%s" % (k, rc, tail))
                 continue
             with open(out) as f:
                 results.append(json.load(f))
@@ -297,7 +315,14 @@ def do_replay(pid, path):
     with open(path) as f:
         v = json.load(f)
     recipe = v["recipe"] if "recipe" in v and "mech" in v else v
+    mode = v.get("pymode", "") if isinstance(v, dict) else ""
+    if mode and os.environ.get("RV_PYMODE") != mode:
+        # the witness was observed in another mode of the interpreter: replay it there
+        cmd = [sys.executable, "-B"] + (["-O"] if mode == "O" else []) + \
+            ["-m", "rv.harness", pid, "--replay", path]
+        return subprocess.call(cmd, cwd=HERE, env=dict(os.environ, RV_PYMODE=mode))
     prop = load_prop(pid)
+    worker.set_pymode()
     obs = worker.run_one(prop, recipe)
     known = load_known()
     unknown, seen = classify(pid, [dict(x, recipe=recipe) for x in obs.violations], known)
